@@ -408,6 +408,6 @@ func checkConcCase(c concCase, rec *Rec) error {
 func init() {
 	s := RegisterRapid("C19_concurrent_workloads",
 		"rapid (run from the -race binary): a workload of 2..~20 tasks drawn from 18 kinds - all m shards of search.All(n<=6), CanonicalIsomorphFull on own graphs and on ONE shared read-only graph held as dense/sparse/three views, CanonicalIsomorphAllocated with own storage, eight itertools iterators, own dawg Builders, Lookup and Search (own searchers) on ONE shared Dawg, observers / clique / colouring / distance / block / counting / planarity / codec functions on the shared graph, AllMaximalCliques with own channels, comb and sortints functions on shared read-only slices, RandomGraph/RandomTree, the named generators, tsp.LIB to own buffers; half of the tasks are duplicated so that two goroutines run identical code on the shared values. Each task's result is computed alone (before the concurrent rounds, or - in half of the cases - after the first one, so that lazily filled caches are still cold when the goroutines start), and all tasks run on 2..16 goroutines behind a start barrier with GOMAXPROCS in {1,2,4,16}, 1..3 rounds. Violation: any race-detector report (GORACE=halt_on_error), any panic, any result that differs from the sequential one, or shards that no longer partition the classes. Schedules are sampled, not enumerated. Non-trivial: >= 2 tasks on >= 2 goroutines.",
-		Budget{Checks: 150, Shards: 3}, Budget{Checks: 500, Shards: 16}, genConcCase, checkConcCase)
+		Budget{Checks: 150, Shards: 3}, Budget{Checks: 1500, Shards: 16}, genConcCase, checkConcCase)
 	s.Race = true
 }
